@@ -30,8 +30,8 @@ func C06(tier string) int {
 		explore.CaseOpts{Prefixes: true, Edits: tier == "thorough", Seqs: tier == "thorough"}, c06Result,
 		report.FinishOpts{Level: "exploration",
 			Rule:         "E1 sweep, completion with prefill off/on at every rune-boundary cursor of every file (valid and broken); per candidate: edit in requested file, range well formed, starts at/before cursor, reaches cursor up to blanks, no tab-stop syntax in plain text, snippet stops consecutive and unique; list <= 100; non-trivial = non-empty candidate list",
-			Assumptions:  []string{"catalogue literal values and hook texts contain no '$' so any tab-stop syntax in NewText is the library's"},
-			BiteCounters: []string{"candidates"}}, nil)
+			Assumptions:  []string{"catalogue literal values and hook texts contain no '$' so any tab-stop syntax in NewText is the library's", "population worlds: 14 producer scenarios x populations {0,1,99,100,101,250} x prefill off/on: len<=100; IsComplete implies no hook configured and returned == population (counted by construction)"},
+			BiteCounters: []string{"candidates", "population_worlds"}}, func(c *report.Collector) { c06Population(c, tier) })
 }
 
 func C12(tier string) int {
